@@ -131,6 +131,11 @@ func init() {
 	x9 := detBytes("x9", 300)
 	add("b22", cid.NewCidV1(cid.Raw, idmh(x9)), x9, "x9")
 
+	// two identity CIDs of equal length whose digests share their first 11 bytes: an index must order
+	// and find them by the whole digest
+	add("b23", cid.NewCidV1(cid.Raw, idmh([]byte("common--pfxA"))), []byte("common--pfxA"), "xpA")
+	add("b24", cid.NewCidV1(cid.Raw, idmh([]byte("common--pfxB"))), []byte("common--pfxB"), "xpB")
+
 	// digest identities
 	type dk struct{ s string }
 	seen := map[string]string{}
